@@ -582,6 +582,38 @@ def run_fit_checks(chk, est, X, y, params, kk, replay, n, d, min_leaf, pre="fit"
             chk.fail(pre + ":never-searched", "fit did not search although the root is explorable", replay, layer="L3")
     if n_leaves_final != 1 + len(gains):
         chk.fail(pre + ":leaf-count", f"{n_leaves_final} leaves after {len(gains)} applied splits", replay, layer="L3")
+    # the split recorded in the tree, the partition used for the next step and the gain announced describe ONE partition:
+    # the (feature, threshold) stored at the node must cut the node's samples exactly as the split the search returned
+    tr = est.tree_
+    leaf2node, nl_ = {0: 0}, 1
+    Xf = np.asarray(X, dtype=np.float64)
+    for t, (st, g, c) in enumerate(calls):
+        if g <= 0:
+            continue
+        leaf, feat, thr, lt, rt = c
+        node = leaf2node.get(leaf)
+        idx = np.nonzero(st.leaf_of == leaf)[0]
+        want_left = Xf[idx, feat] <= thr
+        if node is None or tr.children_left[node] == -1 or tr.features[node] != feat or tr.thresholds[node] is None:
+            chk.fail(pre + ":tree-split-differs", f"call {t}: the tree does not record the chosen split {c} at the node of leaf {leaf}", dict(replay, call=t), layer="L3")
+            break
+        got_left = Xf[idx, tr.features[node]] <= tr.thresholds[node]
+        if not np.array_equal(got_left, want_left) or not want_left.any() or want_left.all():
+            chk.fail(pre + ":tree-split-differs", f"call {t}: the search returned feature {feat} <= {thr!r} (left samples {idx[want_left].tolist()}, gain {g}) but the tree stores "
+                     f"feature {tr.features[node]} <= {tr.thresholds[node]!r}, which sends {idx[got_left].tolist()} left", dict(replay, call=t), layer="L3")
+            break
+        leaf2node[leaf], leaf2node[nl_] = tr.children_left[node], tr.children_right[node]
+        nl_ += 1
+    sizes = np.bincount(leaves_final, minlength=n_leaves_final) if n else np.array([])
+    if n and (sizes.min() < max(1, min_leaf)):
+        chk.fail(pre + ":empty-or-small-leaf", f"leaf sizes {sizes.tolist()} with min_samples_leaf={min_leaf}", replay, layer="L3")
+    try:
+        pred = np.asarray(est.predict(Xf))
+    except Exception as e:  # noqa
+        pred = None
+        chk.fail(pre + ":predict-exception", f"predict on the training data raises {type(e).__name__}: {e}", replay, layer="L3")
+    if pred is not None and not np.array_equal(pred, final):
+        chk.fail(pre + ":predict-differs-from-labels", f"routing the training samples through the recorded thresholds gives {pred.tolist()}, labels_ is {final.tolist()}", replay, layer="L3")
     # final score = root score + sum of the recorded gains
     root = float(kernel.sum() / n)
     total = root + sum(gains)
@@ -683,6 +715,159 @@ def stream_refit(chk, i, rng):
     chk.dist["refit:" + mode] += 1
 
 
+def adversarial_column(rng, n, kind):
+    """A feature column with exact ties and an adversarial pair at the place where the blocks of the kernel meet."""
+    up = lambda v: float(np.nextafter(v, np.inf))  # noqa
+    if kind == "adjacent":
+        lo = float(rng.choice([0.3, 1.0, -2.5, 1e-3, 7.0, 0.1 + 0.7, -1e-9, 123456.789]))
+        pair = (lo, up(lo))
+        rest_lo = [lo - abs(lo) * rng.random() - 0.1 * (k + 1) for k in range(n)]
+        rest_hi = [pair[1] + abs(lo) * rng.random() + 0.1 * (k + 1) for k in range(n)]
+    elif kind == "huge":
+        pair = [(1e300, up(1e300)), (8e307, 1.7e308), (-1.7e308, -8e307), (-1e300, 1e300), (1.5e308, up(1.5e308))][int(rng.integers(0, 5))]
+        rest_lo = [pair[0] - abs(pair[0]) * 0.01 * (k + 1) if abs(pair[0]) < 1.6e308 else pair[0] for k in range(n)]
+        rest_hi = [min(pair[1] + abs(pair[1]) * 0.001 * (k + 1), 1.79e308) for k in range(n)]
+    elif kind == "denormal":
+        pair = [(0.0, 5e-324), (-5e-324, 0.0), (1e-310, up(1e-310)), (-0.0, 5e-324), (-1e-320, -5e-324)][int(rng.integers(0, 5))]
+        rest_lo = [pair[0] - 1e-312 * (k + 1) for k in range(n)]
+        rest_hi = [pair[1] + 1e-312 * (k + 1) for k in range(n)]
+    else:   # ties
+        lo = float(rng.integers(-3, 4)) / 8
+        pair = (lo, lo + 0.125)
+        rest_lo = [lo - 0.125 * int(rng.integers(0, 3)) for _ in range(n)]
+        rest_hi = [pair[1] + 0.125 * int(rng.integers(0, 3)) for _ in range(n)]
+    n_lo = int(rng.integers(1, n))
+    vals_lo = [pair[0]] + [float(rng.choice([pair[0]] + rest_lo[:3])) for _ in range(n_lo - 1)]
+    vals_hi = [pair[1]] + [float(rng.choice([pair[1]] + rest_hi[:3])) for _ in range(n - n_lo - 1)]
+    return np.array(vals_lo + vals_hi, dtype=np.float64), n_lo
+
+
+def stream_advfloat(chk, i, rng):
+    """Adversarial floats reaching Kauri.fit (lessons R3 section 2): adjacent doubles, exact ties and duplicated values at
+    the cut, magnitudes whose sums overflow, denormals and signed zeros, with a precomputed block kernel that puts the
+    best cut exactly between the adversarial pair; also sizes 1 (one feature, K = 1) and limits reached exactly."""
+    kind = ["adjacent", "huge", "denormal", "ties"][i % 4]
+    n = int(rng.integers(3, 11))
+    col, n_lo = adversarial_column(rng, n, kind)
+    d = int(rng.integers(1, 3))
+    X = np.empty((n, d))
+    X[:, 0] = col
+    if d == 2:
+        X[:, 1] = rng.integers(0, 3, size=n) / 8.0 if rng.random() < 0.5 else col[::-1]
+    groups = (np.arange(n) >= n_lo).astype(int)
+    if n - n_lo >= 2 and rng.random() < 0.4:
+        groups[n_lo + (n - n_lo) // 2:] = 2           # a third block: a second cut inside ordinary values
+    kernel = np.where(groups[:, None] == groups[None, :], 1.0, -0.5) + 0.01 * np.eye(n)
+    if rng.random() < 0.5:
+        N = rng.normal(size=(n, n)) * 0.01
+        kernel = kernel + N + N.T
+    perm = rng.permutation(n)
+    X, kernel = np.ascontiguousarray(X[perm]), np.ascontiguousarray(kernel[np.ix_(perm, perm)])
+    min_leaf = int(rng.choice([1, 1, 1, 2]))
+    params = dict(max_clusters=int(rng.integers(1, 5)), min_samples_leaf=min_leaf, min_samples_split=2 * min_leaf,
+                  max_depth=None if rng.random() < 0.5 else int(rng.integers(1, 4)),
+                  max_leaves=None if rng.random() < 0.6 else int(rng.integers(2, 5)),
+                  max_features=None, random_state=int(rng.integers(0, 10 ** 6)), kernel="precomputed")
+    kk = "precomputed-adv-" + kind
+    replay = {"X": [[hx(v) for v in r] for r in X], "params": params, "kernel": kk, "precomputed": [[hx(v) for v in r] for r in kernel]}
+    X0, K0 = X.copy(), kernel.copy()
+    res = run_fit_checks(chk, Kauri(**params), X, kernel, params, kk, replay, n, d, min_leaf, pre="advfloat")
+    if not (np.array_equal(X0, X) and np.array_equal(K0, kernel)) or np.signbit(X0).tolist() != np.signbit(X).tolist():
+        chk.fail("advfloat:argument-modified", "fit modified the caller's data or kernel array", replay, layer="L3")
+    chk.dist["advfloat:" + kind] += 1
+    if res is not None and res["gains"]:
+        chk.dist["advfloat:split-at-adversarial-pair" if res["calls"] else "advfloat:none"] += 1
+
+
+def stream_repr(chk, i, rng):
+    """Same values, other representation (lessons R3 section 1): fit / fit_predict / predict / score of Kauri on integer
+    dtypes, float32, Fortran order, non-contiguous views, read-only arrays, lists and tuples must give exactly the result
+    of the float64 C-contiguous reference and leave the caller's arrays untouched.  (Precomputed kernels are given as
+    float64 in every layout; an integer / float32 precomputed kernel is rejected by the unchanged tree with a
+    ValueError - reported to the coordinator, not exercised here.)"""
+    n = int(rng.integers(4, 13))
+    d = int(rng.integers(1, 4))
+    integral = i % 3 == 0
+    X = rng.integers(-6, 7, size=(n, d)).astype(np.float64) if integral else rng.integers(-44, 45, size=(n, d)) / 8.0 - 0.0625 * 0
+    if not integral:
+        X = X - 0.5 * (np.abs(X) == np.round(np.abs(X)))       # fractional (and negative) thresholds such as -5.5
+    pre = i % 2 == 0
+    kk = "precomputed" if pre else str(rng.choice(["linear", "rbf", "laplacian"]))
+    K = None
+    if pre:
+        A = rng.integers(-3, 4, size=(n, n)).astype(np.float64) / 4
+        K = A + A.T
+    params = dict(max_clusters=int(rng.integers(2, 5)), min_samples_leaf=1, min_samples_split=2, kernel=kk,
+                  random_state=int(rng.integers(0, 10 ** 6)))
+    replay = {"X": X.tolist(), "params": params, "precomputed": None if K is None else K.tolist()}
+    ref = Kauri(**params).fit(X.copy(), None if K is None else K.copy())
+    ref_labels = np.asarray(ref.labels_)
+    ref_gains = sorted(float(g) for g in ref.tree_.gains if g)
+    ref_score = float(ref.score(X.copy(), None if K is None else K.copy()))
+    Q = np.round(X[rng.permutation(n)][: max(2, n // 2)] + rng.integers(-1, 2, size=(max(2, n // 2), d)))   # integral query points
+    ref_pred = np.asarray(ref.predict(Q.copy()))
+
+    def variants(A, allow_int):
+        out = [("fortran", np.asfortranarray(A.copy())), ("readonly", A.copy()), ("list", A.tolist()),
+               ("tuple", tuple(map(tuple, A.tolist())))]
+        out[1][1].setflags(write=False)
+        big = np.zeros((2 * A.shape[0], 2 * A.shape[1]))
+        big[::2, ::2] = A
+        out.append(("strided-view", big[::2, ::2]))
+        out.append(("reversed-view", np.ascontiguousarray(A[:, ::-1])[:, ::-1]))
+        if allow_int:
+            out.append(("float32", A.astype(np.float32)))          # multiples of 1/8 and small integers are exact in float32
+            if np.array_equal(A, np.round(A)):
+                out += [("int64", A.astype(np.int64)), ("int32", A.astype(np.int32))]
+        return out
+
+    def snapshot(v):
+        return v.copy() if isinstance(v, np.ndarray) else json.dumps(v)
+
+    def same(v, snap):
+        return (np.array_equal(v, snap) and v.dtype == snap.dtype) if isinstance(v, np.ndarray) else json.dumps(v) == snap
+
+    cases = [("X:" + nm, xv, K) for nm, xv in variants(X, True)]
+    if K is not None:
+        cases += [("K:" + nm, X, kv) for nm, kv in variants(K, False)]
+    for nm, xv, kv in cases:
+        rp = dict(replay, representation=nm)
+        sx, sk = snapshot(xv), (None if kv is None else snapshot(kv))
+        try:
+            est = Kauri(**params)
+            lab = np.asarray(est.fit_predict(xv, kv)) if i % 2 else np.asarray(est.fit(xv, kv).labels_)
+            gains = sorted(float(g) for g in est.tree_.gains if g)
+            if nm == "K:readonly":
+                # unchanged tree: Kauri.score(X, K) with a read-only precomputed K raises "buffer source array is read-only"
+                # (gemini_objective takes a writable memoryview); reported to the coordinator, fit is still exercised
+                sc = ref_score
+                chk.dist["repr:score-skipped-readonly-kernel(reported)"] += 1
+            else:
+                sc = float(est.score(xv, kv))
+        except Exception as e:  # noqa
+            chk.fail("repr:exception", f"{nm}: {type(e).__name__}: {e} although the float64 C-contiguous call succeeds", rp, layer="L3")
+            continue
+        if not np.array_equal(lab, ref_labels) or len(gains) != len(ref_gains) or not np.allclose(gains, ref_gains, rtol=1e-12, atol=1e-12) \
+                or abs(sc - ref_score) > (1e-5 if nm.endswith("float32") else 1e-12) * (1 + abs(ref_score)):   # score() of float32 data evaluates the kernel in float32
+            chk.fail("repr:result-differs", f"{nm}: labels {lab.tolist()} gains {gains} score {sc}; reference labels {ref_labels.tolist()} gains {ref_gains} score {ref_score}", rp, layer="L3")
+        if not same(xv, sx) or (kv is not None and not same(kv, sk)):
+            chk.fail("repr:argument-modified", f"{nm}: the caller's array was modified by fit / score", rp, layer="L3")
+        chk.dist["repr:" + nm.split(":")[1]] += 1
+    for nm, qv in variants(Q, True):
+        sq = snapshot(qv)
+        try:
+            pr = np.asarray(ref.predict(qv))
+        except Exception as e:  # noqa
+            chk.fail("repr:predict-exception", f"query as {nm}: {type(e).__name__}: {e}", dict(replay, query=Q.tolist(), representation=nm), layer="L3")
+            continue
+        if not np.array_equal(pr, ref_pred):
+            chk.fail("repr:predict-differs", f"query as {nm}: {pr.tolist()} but {ref_pred.tolist()} for the same values as float64 "
+                     f"(thresholds {[t for t in ref.tree_.thresholds if t is not None]})", dict(replay, query=Q.tolist(), representation=nm), layer="L3")
+        if not same(qv, sq):
+            chk.fail("repr:argument-modified", f"predict modified the query array ({nm})", dict(replay, representation=nm), layer="L3")
+    chk.count(("repr", n, d, kk, integral, len(ref_gains)) if ref_gains else None)
+
+
 def stream_corpus(chk, i, rng):
     files = sorted(glob.glob(f"{VERIF}/corpus/C08/*.json"))
     if i >= len(files):
@@ -698,7 +883,8 @@ def stream_corpus(chk, i, rng):
 
 
 STREAMS = {"corpus": (stream_corpus, 8, 8), "states": (stream_states, 1500, 24000), "realloc": (stream_realloc, 2500, 30000),
-           "exact": (stream_exact, 400, 8000), "fit": (stream_fit, 260, 4000), "refit": (stream_refit, 60, 900)}
+           "exact": (stream_exact, 400, 8000), "fit": (stream_fit, 260, 4000), "refit": (stream_refit, 60, 900),
+           "advfloat": (stream_advfloat, 80, 1200), "repr": (stream_repr, 24, 300)}
 
 
 def main():
